@@ -6,6 +6,7 @@ import (
 	"fmt"
 	"log/slog"
 	"path/filepath"
+	"strings"
 	"sync"
 
 	"reduction.dev/reduction/connectors"
@@ -278,17 +279,23 @@ func (s *Store) LoadCheckpoint() error {
 			return fmt.Errorf("restore checkpoints from savepoint: %v", err)
 		}
 	} else {
-		// For a new job, check the file store for first (latest) snapshot file.
-		// Checkpoint IDs are encoded so that files will be in reverse chronological
-		// order.
+		// For a new job, check the file store for the latest snapshot file. The
+		// alphabet of the encoded checkpoint IDs is not in byte order, so the order
+		// of the listing says nothing about age: decode the IDs and take the
+		// greatest.
 		var latestCheckpointFile string
+		var latestID uint64
 		for filePath, err := range s.fileStore.List() {
 			if err != nil {
 				return err
 			}
-			if filepath.Ext(filePath) == ".snapshot" {
-				latestCheckpointFile = filePath
-				break
+			if filepath.Ext(filePath) != ".snapshot" {
+				continue
+			}
+			name := strings.TrimSuffix(strings.TrimPrefix(filepath.Base(filePath), "job-"), ".snapshot")
+			id, _ := idFromPathSegment(name)
+			if latestCheckpointFile == "" || id > latestID {
+				latestCheckpointFile, latestID = filePath, id
 			}
 		}
 
